@@ -195,8 +195,7 @@ def used : Str → Int := fun _ => 0
 /-- two reconcile periods of a gateway in remote mode against a limiter server that handled the object -/
 def reconcileTwice (c : Cluster) (ci : ClusterInfo) : M Unit := do
   let u ← upstreamConditionHandler emptyUpstream c
-  let (fcs1, u1) ← reconcileOnce quota used true [1] ci.flowcontrol.flowControls u
-  let _ ← reconcileOnce quota used true [1] fcs1 u1
+  let _ ← reconcileLoop quota used [1] 2 (ci.flowcontrol.flowControls, u)
   pure ()
 
 def doRun (a : Json) : Except String Json := do
